@@ -405,6 +405,8 @@ def run(ctx, rep):
     a1t(F, rep, res)
     a8(F, rep)
     a9(F, rep)
+    from . import c02
+    c02.m8(F, rep, "A10")        # recreate cannot answer Ok for a stored stream without reconstructing it
     a2(F, rep)
     a3(F, rep)
     from . import scan
